@@ -684,6 +684,8 @@ impl PackageBuilder {
         }
 
         let uses_large_files = combined_file_sizes > u32::MAX.into();
+        #[cfg(feature = "verif-hooks")]
+        let uses_large_files = uses_large_files || crate::verif_hooks::force_large_files();
 
         // @todo: sort entries by path?
         // @todo: normalize path?
@@ -741,6 +743,8 @@ impl PackageBuilder {
             } else {
                 // @todo: can we just use ino_index instead of file_index?
                 let header = payload::stripped_cpio_header(file_index as u32);
+                #[cfg(feature = "verif-hooks")]
+                crate::verif_hooks::hit("builder.stripped_entry_written");
                 archive.write_all(&header)?;
                 archive.write_all(&content)?;
                 archive.flush()?;
